@@ -93,7 +93,32 @@ def gen_case(ch: Chooser, tier: str = "quick") -> dict:
                 pool += [i["name"] for i in c.inputs if i["name"] not in pool][:1]
             en, _used = _gen_enable(ch, g, pool)
             c.stmts.append(["mem", mname, mtype])
-            if ch.chance(1, 4):
+            if ch.chance(1, 6):
+                # an arithmetic value (never negative) that serves as the enable and, on its own
+                # type, as write data too ("remember the last positive reading")
+                cands = [i for i in c.inputs if i["dom"] in ("nonneg", "bool", "shift", "exp")]
+                src_in = ch.pick(cands)["name"] if cands else g.add_input("nonneg")
+                xn = c.fresh("x")
+                c.stmts.append(["decl", "Signal", xn, ["bin", ch.pick(["*", "+"]), ["var", src_in],
+                                                       ["lit", ch.rint(1, 5), 10]]])
+                xt = next(i["type"] for i in c.inputs if i["name"] == src_in)
+                en_ref = ["var", xn]
+                use = ch.weighted([(2, "same"), (2, "other"), (1, "enable-only")])
+                if use == "same":
+                    # this very cell stores x while x > 0
+                    c.stmts[-2] = ["mem", mname, xt]
+                    mtype = xt
+                    typed = True
+                    data = ["var", xn]
+                elif use == "other":
+                    on = c.fresh("m")
+                    c.stmts.append(["mem", on, xt])
+                    e2, _u = _gen_enable(ch, g, list(en_inputs))
+                    c.stmts.append(["write", on, ["var", xn], e2])
+                    orn = c.fresh("r")
+                    c.stmts.append(["decl", "Signal", orn, ["read", on]])
+                    cells.append({"mem": on, "type": xt, "reader": orn})
+            elif ch.chance(1, 4):
                 en_name = c.fresh("en")
                 c.stmts.append(["decl", "Signal", en_name, en])
                 en_ref = ["var", en_name]
